@@ -88,6 +88,13 @@ def run(ctx):
                     ctx.violation(dict(sig, kind='depends-on-sample-type', frame_dtype=np.asarray(frame).dtype.kind),
                                   dict(detail, max_abs_difference=float(np.abs(o_t - o_f).max()) if o_t.shape == o_f.shape else None), case=None)
                     break
+            # 1a'. a blur is linear: faint frames (1e-15 of a count) and bright ones (1e12) are blurred like any other
+            for kmag in (1e-15, 1e-12, 1e12):
+                o_k = call[name](img * kmag)
+                if not np.allclose(o_k / kmag, out, rtol=1e-9, atol=1e-12 * (1 + np.abs(out).max())):
+                    ctx.violation(dict(sig, kind='not-linear-in-magnitude', magnitude=kmag),
+                                  dict(detail, total_in=float(img.sum()), total_out_over_k=float(o_k.sum() / kmag)), case=None)
+                    break
             # 1b. sparse frames (point sources on an empty background): ringing of the kernel goes negative before abs()
             sp_img = np.zeros((R, C))
             for _ in range(rng.randint(1, 3)):
